@@ -414,7 +414,7 @@ func c05Case(t *core.T, steps int, defaultScrypt bool) {
 			}
 			var own, own2 *wire.OutPoint
 			var ownVal, own2Val int64
-			ownAddr := ""
+			ownAddr, own2Addr := "", ""
 			findOwn := func() {
 				utxos, err := w.W.GetUtxo(nil)
 				if err != nil {
@@ -425,7 +425,7 @@ func c05Case(t *core.T, steps int, defaultScrypt bool) {
 					addrs = append(addrs, a)
 				}
 				sort.Strings(addrs)
-				own, own2 = nil, nil
+				own, own2, own2Addr = nil, nil, ""
 				for _, a := range addrs {
 					for _, u := range utxos[a] {
 						h, err := wire.NewHashFromStr(u.TxId)
@@ -434,8 +434,9 @@ func c05Case(t *core.T, steps int, defaultScrypt bool) {
 						}
 						if own == nil {
 							own, ownVal, ownAddr = wire.NewOutPoint(h, u.Vout), u.Amount.IntValue(), a
-						} else if own2 == nil {
-							own2, own2Val = wire.NewOutPoint(h, u.Vout), u.Amount.IntValue()
+						} else if own2 == nil || (own2Addr == ownAddr && a != ownAddr) {
+							// the second coin preferably on another address (another key to derive)
+							own2, own2Val, own2Addr = wire.NewOutPoint(h, u.Vout), u.Amount.IntValue(), a
 						}
 					}
 				}
@@ -447,11 +448,16 @@ func c05Case(t *core.T, steps int, defaultScrypt bool) {
 				if err != nil || len(list) == 0 {
 					continue
 				}
-				h, err := sim.HashOfAddress(list[t.R.Intn(len(list))].Address)
+				pick := t.R.Intn(len(list))
+				h, err := sim.HashOfAddress(list[pick].Address)
 				if err != nil {
 					continue
 				}
-				cb := sim.Coinbase(n.Height()+1, t.R.Uint64(), []*wire.TxOut{wire.NewTxOut(int64(50000000+t.R.Intn(1000000)), sim.P2WSH(h)), wire.NewTxOut(int64(20000000+t.R.Intn(1000000)), sim.P2WSH(h))})
+				hB := h
+				if hb, err := sim.HashOfAddress(list[(pick+1)%len(list)].Address); err == nil {
+					hB = hb // the second coin on another address when the wallet has two
+				}
+				cb := sim.Coinbase(n.Height()+1, t.R.Uint64(), []*wire.TxOut{wire.NewTxOut(int64(50000000+t.R.Intn(1000000)), sim.P2WSH(h)), wire.NewTxOut(int64(20000000+t.R.Intn(1000000)), sim.P2WSH(hB))})
 				b := n.NewBlock(n.Tip(), []*wire.MsgTx{cb})
 				if err := n.Extend(b); err != nil {
 					t.Fatalf("extend: %v", err)
@@ -607,6 +613,28 @@ func c05Case(t *core.T, steps int, defaultScrypt bool) {
 							}
 							return err
 						})
+						// a second client that exports with the RIGHT passphrase: allowed, and the signing call
+						// must not suffer from it
+						if !blocked && !t.Failed() && !x.removed {
+							fin := make(chan error, 1)
+							go func() {
+								_, err := w.W.ExportWallet(x.id, x.pass)
+								fin <- err
+							}()
+							select {
+							case err := <-fin:
+								t.Eval(1)
+								if err != nil {
+									fail("right-passphrase-refused:export-while-signing", fmt.Sprintf("ExportWallet with the right passphrase while a signing call is in flight: %v", err))
+								}
+								t.Count("exports_with_the_right_passphrase_while_a_signing_call_is_parked", 1)
+							case <-time.After(3 * time.Second):
+								blocked = true
+								t.Count("attempts_blocked_by_the_parked_signing_call", 1)
+								close(gate.release)
+								<-fin
+							}
+						}
 						if !blocked {
 							close(gate.release)
 						}
